@@ -251,6 +251,16 @@ fn gen_natural(rng: &mut Rng, idx: usize) -> String {
         "emit(sorted([(i % 7, \"a\" if i % 5 else 3) for i in range(40)]))",
         "emit(max(list(range(25)) + [\"s\"]), min([None] + list(range(25))))",
         "emit(sorted([float(\"nan\")] + [float(i) for i in range(30)] + [float(\"nan\"), 3]))",
+        // Format strings with non-ASCII characters right after the conversion marker.
+        "emit(\"ab%écd\" % (1,))",
+        "emit(\"%€\" % 1)",
+        "emit(\"100%😀\" % ())",
+        "emit(\"é%sé%rü%d😀\" % (\"日本\", \"ü\", 3), \"%%é\" % (), \"%(é)s\" % {\"é\": 1})",
+        "emit(\"{é}\".format(é = 1))",
+        "emit(\"{:é}\".format(1), \"{0!é}\".format(1))",
+        "emit(\"x%\" % ())",
+        "emit(\"日本語\".index(\"語\", 1, 2), \"日本語\".find(\"本\", -1), \"a😀b\"[1:2], \"a😀b\".rfind(\"b\", 2, 100), \"😀\" * 3, \"é😀\".removeprefix(\"é\"), \"é😀\".split(\"\"))",
+        "emit(\"é😀\".replace(\"\", \"-\"), \"é😀\".replace(\"\", \"-\", 2), \"abc\".replace(\"\", \"é\", -1), \"é\".splitlines(True), \"a\\r\\n\".splitlines(True), \"é\".elems(), \"é😀\".codepoints())",
         "emit(tqe_last())",
         "emit([tqe_last() for _ in range(2)])",
     ];
@@ -614,6 +624,120 @@ fn enum_calls(case: &Json) -> (String, Vec<String>) {
     (callee.clone(), calls)
 }
 
+/// Programs that end in an error (second element of each pair would be the repaired follow-up: not used here).
+const REPEAT_FAILS: &[&str] = &[
+    "dz = []\ndy = []\nfor _i in range(400):\n    dz = [dz]\n    dy = [dy]\nemit(dz == dy)",
+    "dz = []\ndy = []\nfor _i in range(400):\n    dz = [dz]\n    dy = [dy]\nemit(dz < dy)",
+    "dz = []\nfor _i in range(400):\n    dz = [dz]\nemit(len(json.encode(dz)))",
+    "dz = []\nfor _i in range(400):\n    dz = [dz]\nemit(len(repr(dz)))",
+    "emit(json.encode([1, {\"k\": [2, len]}]))",
+    "cy = [1]\ncy.append(cy)\nemit(json.encode(cy))",
+    "def rq(n):\n    return rq(n + 1)\nrq(0)",
+    "def rq(n):\n    return [rq(m) for m in [n + 1]]\nrq(0)",
+    "def rq(n):\n    return sorted([n], key = rq)\nrq(0)",
+    "emit(sorted([3, 1, 2], key = lambda v: 1 // 0))",
+    "def lp(d):\n    for k in d:\n        fail(\"in loop\")\nlp({\"a\": 1})",
+    "emit([x for x in [1, 2] if fail(\"in compr\")])",
+    "def ty(x: int) -> int:\n    return x\nty(\"s\")",
+    "emit(\"{} {}\".format(1))",
+    "emit({}[\"k\"])",
+    "load(\"nonexistent.star\", \"x\")",
+    "emit(apply(lambda: apply(lambda: 1 // 0)))",
+    "emit(\"%d\" % \"s\")",
+    "emit(max([1, \"a\"]))",
+];
+
+fn execute_repeat(case: &Json, mut o: Outcome) -> Outcome {
+    let program = case["program"].as_str().unwrap_or("").to_owned();
+    let k = case["k"].as_u64().unwrap_or(230);
+    // A fresh OS thread: thread-local state starts clean, so the case does not depend on what the
+    // worker has evaluated before.
+    let p2 = program.clone();
+    let h = std::thread::Builder::new().stack_size(64 << 20).spawn(move || -> Result<(u64, Vec<String>), (String, String)> {
+        let files = vec!["rep.star".to_owned(), "probe.star".to_owned()];
+        let t0 = fresh_probe();
+        let mut log = Vec::new();
+        let mut first_err: Option<String> = None;
+        let mut done = 0u64;
+        let mut verdict: Option<(String, String)> = None;
+        Module::with_temp_heap(|module| {
+            let mut eval = Evaluator::new(&module);
+            for i in 0..k {
+                kit::ctx_reset();
+                let r = match kit::parse("rep.star", &format!("{p2}\n")) {
+                    Err(e) => Err(e),
+                    Ok(ast) => eval.eval_module(ast, kit::globals()).map(|_| ()),
+                };
+                done += 1;
+                match r {
+                    Ok(()) => {
+                        verdict = Some(("harness".to_owned(), format!("repetition {i}: the program did not fail")));
+                        return;
+                    }
+                    Err(e) => {
+                        for (c, d) in check_error(&e, &files, false) {
+                            verdict = Some((c, format!("repetition {i}: {d}")));
+                            return;
+                        }
+                        let text = format!("[{}] {}", kit::error_kind(&e), kit::error_text(&e));
+                        match &first_err {
+                            None => first_err = Some(text),
+                            Some(f) => {
+                                if *f != text {
+                                    verdict = Some(("repeated-failure-changes".to_owned(), format!("the same failing program gives another error the {}-th time: first `{}`, now `{}`", i + 1, kit::clip(f), kit::clip(&text))));
+                                    return;
+                                }
+                            }
+                        }
+                        if eval.call_stack_count() != 0 {
+                            verdict = Some(("callstack-not-empty".to_owned(), format!("call_stack_count() == {} after repetition {i}", eval.call_stack_count())));
+                            return;
+                        }
+                    }
+                }
+            }
+            // The same evaluator is as good as new.
+            kit::ctx_reset();
+            let r = run_step(&mut eval, &module, &json!({"kind": "module", "text": PROBE}), 999, &["h999.star".to_owned()]);
+            let mut t1 = r.transcript;
+            t1.extend(r.problems.iter().map(|(a, b)| format!("problem {a} {b}")));
+            if t1 != t0 {
+                verdict = Some(("probe-differs-after-repeated-failure".to_owned(), format!("after {k} failures, same evaluator: {:?}", kit::diff_transcripts(&t0, &t1))));
+            }
+        });
+        if let Some(v) = verdict {
+            return Err(v);
+        }
+        // And so is the thread: a fresh evaluator and module.
+        let t2 = fresh_probe();
+        if t2 != t0 {
+            return Err(("probe-differs-after-repeated-failure".to_owned(), format!("after {k} failures, fresh evaluator on the same thread: {:?}", kit::diff_transcripts(&t0, &t2))));
+        }
+        log.push(first_err.unwrap_or_default());
+        Ok((done, log))
+    });
+    match h.map(|h| h.join()) {
+        Ok(Ok(Ok((done, log)))) => {
+            o.sim_time += done;
+            o.nontrivial = true;
+            o.bump("fault.repeated_failures", done);
+            o.bump("probe.repeat_histories", 1);
+            o.log_hash = kit::hash_lines(&log);
+        }
+        Ok(Ok(Err((c, d)))) => {
+            if c == "harness" {
+                o.bump("invalid_cells", 1);
+            } else {
+                let key = c.clone();
+                o.violate(&c, &key, format!("`{}` x {k}: {d}", kit::clip(&program)));
+            }
+        }
+        Ok(Err(_)) => o.violate("panic", "panic", format!("panic while repeating `{}`: {}", kit::clip(&program), take_last_panic().unwrap_or_default())),
+        Err(e) => o.violate("harness", "harness", format!("cannot spawn: {e}")),
+    }
+    o
+}
+
 fn execute_enum(case: &Json, mut o: Outcome) -> Outcome {
     let (callee, calls) = enum_calls(case);
     let callee = &callee;
@@ -707,6 +831,13 @@ impl World for C07 {
     }
 
     fn generate(&self, seed: u64, index: u64, tier: Tier) -> Json {
+        if index % 16 == 14 {
+            // One failing evaluation repeated many times on one evaluator: whatever a failure
+            // leaves behind (a frame, a recursion level, an entry of a guard set) adds up.
+            let mut r = Rng::new(run_seed(seed, "C07repeat", index));
+            let p = REPEAT_FAILS[r.usize(REPEAT_FAILS.len())];
+            return json!({"mode": "repeat", "program": p, "k": *r.pick(&[60u64, 230, 230, 300])});
+        }
         if index % 4 == 3 {
             // Enumeration of builtin / method calls over the extreme-value catalogue: every
             // call is its own evaluation on ONE evaluator (a history in which most steps fail).
@@ -777,6 +908,9 @@ impl World for C07 {
         o.digest = fnv(case.to_string().as_bytes());
         if case["mode"] == "enum" {
             return execute_enum(case, o);
+        }
+        if case["mode"] == "repeat" {
+            return execute_repeat(case, o);
         }
         let mut log: Vec<String> = Vec::new();
         let probe_ref = fresh_probe();
